@@ -25,7 +25,9 @@ EvStep == /\ Ev.e = "omni.ev"
 Obs == /\ Ev.e = "omni.obs"
        /\ stored' = [stored EXCEPT ![Ev.l] = Ev.served]
        /\ UNCHANGED <<published, nev, evs, down>> /\ i' = i + 1
-TNext == i <= Len(Trace) /\ (Start \/ EvStep \/ Obs)
+\* a PUT received by the stub distributor from the service's REST distributor (state is not touched)
+PutEv == Ev.e = "omni.put" /\ UNCHANGED rvars /\ i' = i + 1
+TNext == i <= Len(Trace) /\ (Start \/ EvStep \/ Obs \/ PutEv)
 TSpec == TInit /\ [][TNext]_tvars
 
 Check(name, sig, ok) == ok \/ PrintT("FAIL " \o ToJson([id |-> "C14", name |-> name, i |-> i, run |-> Ev.run, k |-> Ev.k, sig |-> sig]))
@@ -44,6 +46,17 @@ MonObs ==
     /\ Check("StopsAtFork", "-", l \notin down /\ ~follows => Ev.served = st)
     /\ Check("KeepsServingDuringOutage", "-", l \in down => Ev.served = st)
 MonEv == Check("MainStopsCleanly", "-", Ev.mainerr = "")
-Monitor == CASE Ev.e = "omni.obs" -> MonObs [] Ev.e = "omni.ev" -> MonEv [] OTHER -> TRUE
+\* what the service pushes to the distributor is a cosigned checkpoint of that log on the witnessed history
+\* (it was read from the witness a moment ago, so it is a prefix of - or equal to - what was observed last or is observed next)
+MonPut ==
+    /\ Check("DistributedToTheRightPath", "-", Ev.l \in Logs)
+    /\ Check("DistributedIsCosigned", "-", Ev.cosigned /\ Ev.served.b # 99)
+    /\ Check("DistributedIsOnWitnessedHistory", "-",
+             Ev.l \in Logs /\ Ev.served.b # 99 =>
+                 LET st == stored[Ev.l]
+                     pcp == AsCP(published[Ev.l].b, published[Ev.l].n)
+                 IN (st # None /\ (Extends(Ev.served, st) \/ SameTree(Ev.served, st) \/ Extends(st, Ev.served)))
+                    \/ (st = None /\ (Extends(Ev.served, pcp) \/ SameTree(Ev.served, pcp))))
+Monitor == CASE Ev.e = "omni.obs" -> MonObs [] Ev.e = "omni.ev" -> MonEv [] Ev.e = "omni.put" -> MonPut [] OTHER -> TRUE
 Done == TLCGet("stats").diameter - 1 = Len(Trace)
 =============================================================================
